@@ -1810,6 +1810,68 @@ fn required_own() -> Vec<String> {
     v
 }
 
+/// Display with format specifications: the text must not depend on the layout, and every element
+/// must be formatted with the caller's specification (precision, width, sign, zero padding)
+fn display_specs_case<R, C>(sub: &mut Sub, cfg: &Config, idx: u64)
+where
+    R: MatX<f64> + Display,
+    C: MatX<f64> + Display,
+{
+    let mut rng = Rng::for_case("display_specs", cfg.case_seed(), idx ^ ((R::N as u64) << 40));
+    let n = R::N;
+    let vals: Vec<Vec<f64>> = (0..n).map(|_| (0..n).map(|_| (rng.range_i64(-4000, 4000) as f64) / 16.0).collect()).collect();
+    let r = R::from_fn(|i, j| vals[i][j]);
+    let c = C::from_fn(|i, j| vals[i][j]);
+    let mut h = H64::new();
+    h.s(R::NAME);
+    for row in &vals {
+        for x in row {
+            h.f(*x);
+        }
+    }
+    macro_rules! spec {
+        ($fmt:literal) => {{
+            let (ar, ac) = (format!("Display for {}", R::NAME), format!("Display for {}", C::NAME));
+            sub.saw(&ar);
+            sub.saw(&ac);
+            let tr = guarded(|| format!($fmt, r));
+            let tc = guarded(|| format!($fmt, c));
+            match (tr, tc) {
+                (Ok(tr), Ok(tc)) => {
+                    let want: Vec<String> = vals.iter().flat_map(|row| row.iter().map(|x| format!($fmt, x).trim().to_string())).collect();
+                    let toks = |t: &str| -> Vec<String> { t.split_whitespace().filter(|w| *w != "(" && *w != ")").map(|w| w.to_string()).collect() };
+                    if tr != tc {
+                        let v = violation(PROP, sub, &ac, "f64", "wrong_value", "display_depends_on_layout", format!("format specification {:?}: row-major prints {:?} but column-major prints {:?} for the same matrix {:?}", $fmt, tr, tc, vals), cfg.case_seed(), idx);
+                        sub.add_violation(v);
+                        return false;
+                    }
+                    for (api, t) in [(&ar, &tr), (&ac, &tc)] {
+                        if toks(t) != want {
+                            let v = violation(PROP, sub, api, "f64", "wrong_value", "display_ignores_format_spec", format!("format specification {:?}: printed {:?}; the elements formatted with that specification, row by row, are {:?}", $fmt, t, want), cfg.case_seed(), idx);
+                            sub.add_violation(v);
+                            return false;
+                        }
+                    }
+                    true
+                }
+                (a, b) => {
+                    let v = violation(PROP, sub, &ar, "f64", "panic", "display", format!("formatting with {:?} panicked: {:?} / {:?}", $fmt, a.err(), b.err()), cfg.case_seed(), idx);
+                    sub.add_violation(v);
+                    false
+                }
+            }
+        }};
+    }
+    let ok = (|| spec!("{}") && spec!("{:.1}") && spec!("{:.3}") && spec!("{:>9}") && spec!("{:+}") && spec!("{:08.2}") && spec!("{:<7.1}"))();
+    if ok {
+        sub.held(h.get(), true);
+        sub.sample(|| format!("{} / {} of {:?}: identical text for 7 format specifications, e.g. {{:.1}} -> {:?}", R::NAME, C::NAME, vals, format!("{:.1}", r)));
+    } else {
+        sub.evaluations += 1;
+        sub.conclusive += 1;
+    }
+}
+
 fn main() {
     let mut cfg = Config::from_args(PROP);
     let miri = cfg.tool == "miri";
@@ -1888,6 +1950,16 @@ fn main() {
         } else {
             s.floor = 0;
         }
+        rep.push(s);
+    }
+    {
+        let nd = cfg.n(300, 30_000);
+        let proto = Sub::new("display_specs", "random f64 matrices (multiples of 1/16), 3 sizes, row-major and column-major value of the same abstract matrix formatted with 7 format specifications ({} {:.1} {:.3} {:>9} {:+} {:08.2} {:<7.1}): the two texts are identical and the whitespace-separated tokens are the elements, row by row, each formatted with the caller's specification; distinct by hash of the values").with_floor(nd * 2);
+        let s = run_cases(&cfg, proto, nd, |s, i| {
+            display_specs_case::<Rows2<f64>, Cols2<f64>>(s, &cfg, i);
+            display_specs_case::<Rows3<f64>, Cols3<f64>>(s, &cfg, i);
+            display_specs_case::<Rows4<f64>, Cols4<f64>>(s, &cfg, i);
+        });
         rep.push(s);
     }
     {
